@@ -38,8 +38,10 @@ DEFS = ["-DARCH_X86_64=1", "-DEN_AVX512_SUPPORT=0", "-DSAFECLIB_STR_NULL_SLACK=1
         "-std=gnu99", "-D" + GUARD + "=1"]
 
 DEFAULT_CHECKS = ["--bounds-check", "--pointer-check", "--div-by-zero-check",
-                  "--signed-overflow-check", "--undefined-shift-check", "--conversion-check",
-                  "--pointer-overflow-check"]
+                  "--signed-overflow-check", "--undefined-shift-check", "--pointer-overflow-check"]
+# --conversion-check is NOT a default: narrowing integer conversions are implementation-defined (GCC: modular),
+# not undefined, and the library uses them deliberately ((uint8_t)c, (int16_t)(rng << d)); units that care about
+# a value-preserving conversion say so in their contract.
 
 
 class Unit:
@@ -53,7 +55,7 @@ class Unit:
                  what="", backend=None, object_bits=12, keep_bodies=None, covers=0,
                  restrict_fp=None, nondet_static=False, drop_checks=(), slice_spec=None,
                  thorough_defines=None, thorough_unwind=None, quick_bound="", thorough_bound="",
-                 cover_functions=None, cover_allow=(), cover=True):
+                 cover_functions=None, cover_allow=(), cover=True, pre_cmds=()):
         self.uid = uid
         self.prop = prop
         self.harness = harness          # path relative to /verif
@@ -100,6 +102,7 @@ class Unit:
         self.cover = cover
         self.cover_functions = cover_functions  # default: the enforced function / none for lemma harnesses
         self.cover_allow = list(cover_allow)    # regexes on the source text of a block that may be unreachable
+        self.pre_cmds = list(pre_cmds)          # generators run before compilation ({udir}, {repo}, {verif})
 
 
 class Undecided(Exception):
@@ -298,6 +301,12 @@ def build_unit(u, tier, extra_defines=(), tag=""):
         for k, p in sl.items():
             macro = "SCRATCH_" + re.sub(r"\W", "_", os.path.basename(k))
             dflags.append('-D%s="%s"' % (macro, p))
+    for pc in u.pre_cmds:
+        c = pc.format(udir=udir, repo=REPO, verif=VERIF)
+        rc, out, err, t, to = sh(["sh", "-c", c], timeout=300)
+        if rc != 0:
+            raise Undecided("generator failed (%s): %s" % (u.uid, (err or out)[-800:]))
+    dflags.append("-I" + udir)
     harness = os.path.join(VERIF, u.harness)
     # 1. syntax pre-check with gcc (goto-cc accepts some signature mismatches silently)
     gb0 = os.path.join(udir, "u0.gb")
@@ -605,12 +614,19 @@ def native_replay(u, inputs, udir, tier):
     rc, out, err, t, to = sh(["timeout", "-s", "KILL", "20", exe], timeout=30,
                              env=dict(os.environ, ASAN_OPTIONS="detect_leaks=0"))
     txt = (out + "\n" + err)[-3000:]
+    started = "REPLAY: start" in out
+    if not started:
+        return None, "native twin did not start (no entry point / link problem)\n" + txt
     if to or rc in (137, -9):
         return True, "native twin did not return within 20 s (hang reproduced)\n" + txt
     if rc == 3:
         return None, "native twin: inputs do not satisfy the precondition natively\n" + txt
+    if "REPLAY-FAIL" in out:
+        return True, "native twin: the real code violates the obligation on the counterexample\n" + txt
+    if rc != 0 and re.search(r"AddressSanitizer|runtime error", err):
+        return True, "native twin: sanitizer error in the real code on the counterexample (rc=%d)\n%s" % (rc, txt)
     if rc != 0:
-        return True, "native twin failed (rc=%d)\n%s" % (rc, txt)
+        return None, "native twin ended abnormally without a verdict (rc=%d)\n%s" % (rc, txt)
     return False, "native twin ran the real code on the counterexample and the postcondition held\n" + txt
 
 
